@@ -533,10 +533,12 @@ func (u *Unit) evalAssignExpr(con *Contract, expr string, rv *roleVals, pre *Sta
 // havocHeapFramed havocs heap key k for a call, keeping the objects the callee's
 // frame excludes (quantified frame axiom).
 func (u *Unit) havocHeapFramed(st, pre *State, k string, con *Contract, rv *roleVals) {
-	old := u.heapTerm(st, k, u.sortOfHeapKey(k))
-	if u.heapSort[k] == "" {
+	srtK := u.sortOfHeapKey(k)
+	if srtK == "" {
+		u.reg.note("heap key " + k + " has no known sort (external struct field); not havocked")
 		return
 	}
+	old := u.heapTerm(st, k, srtK)
 	u.havocHeap(st, k)
 	if con == nil || !con.HasAssigns {
 		return
